@@ -205,11 +205,11 @@ func c12OwnerIDs(s c12Seq) []int {
 
 type c12Verdict struct {
 	Flags []string `json:"flags"` // patterns of listed findings present in the judged prefix
-	Step  int    `json:"step"`
-	What  string `json:"what"`
-	Got   string `json:"got"`
-	Want  string `json:"want"`
-	Class string `json:"class"` // links | targets | count | find | memory | decoy
+	Step  int      `json:"step"`
+	What  string   `json:"what"`
+	Got   string   `json:"got"`
+	Want  string   `json:"want"`
+	Class string   `json:"class"` // links | targets | count | find | memory | decoy
 }
 
 // c12Judge compares the observations with the reference; returns the first disagreement (nil = property holds).
@@ -658,9 +658,9 @@ func c12KnownPattern(s c12Seq, v *c12Verdict) string {
 
 func init() {
 	register("C12", func(r *Result, rng *rand.Rand, tier string) {
-		n := 400
+		n := 2500
 		if tier == "thorough" {
-			n = 30000
+			n = 80000
 		} else if tier == "search" {
 			n = 4000
 		}
